@@ -75,14 +75,10 @@ retry_sem_wait:
 		}
 
 		(void)qb_thread_lock(logt_wthread_lock);
-		if (wthread_should_exit) {
-			int value = -1;
-
-			(void)sem_getvalue(&logt_print_finished, &value);
-			if (value == 0) {
-				(void)qb_thread_unlock(logt_wthread_lock);
-				pthread_exit(NULL);
-			}
+		if (wthread_should_exit &&
+		    qb_list_empty(&logt_print_finished_records)) {
+			(void)qb_thread_unlock(logt_wthread_lock);
+			pthread_exit(NULL);
 		}
 
 		rec =
